@@ -23,7 +23,7 @@ func (r *Rng) Range(lo, hi int) int { // inclusive; biased towards the literals 
 	}
 	return lo + r.Intn(hi-lo+1)
 }
-func (r *Rng) Bool() bool         { return r.U64()&1 == 1 }
+func (r *Rng) Bool() bool               { return r.U64()&1 == 1 }
 func (r *Rng) Chance(num, den int) bool { return r.Intn(den) < num }
 func (r *Rng) Bytes(n int) []byte {
 	b := make([]byte, n)
@@ -34,6 +34,52 @@ func (r *Rng) Bytes(n int) []byte {
 				b[i+j] = byte(v >> (8 * j))
 			}
 		}
+	}
+	return b
+}
+
+// BytesE: an octet string of the given size that is, one time in five, of a special shape: all zeros, all ones, zero
+// octets at the end or at the start (NUL-terminated strings, leading-zero integers), or a well-known structured value of
+// that size (IPv4-mapped / loopback / multicast addresses for 16 octets, any / broadcast / loopback for 4)
+func (r *Rng) BytesE(n int) []byte {
+	b := r.Bytes(n)
+	if n == 0 || !r.Chance(1, 5) {
+		return b
+	}
+	switch r.Intn(7) {
+	case 0:
+		for i := range b {
+			b[i] = 0
+		}
+	case 1:
+		for i := range b {
+			b[i] = 0xff
+		}
+	case 2:
+		for i, k := n-1, r.Range(1, 3); i >= 0 && k > 0; i, k = i-1, k-1 {
+			b[i] = 0
+		}
+	case 3:
+		for i, k := 0, r.Range(1, 3); i < n && k > 0; i, k = i+1, k-1 {
+			b[i] = 0
+		}
+	case 4, 6:
+		switch n {
+		case 16:
+			copy(b, [][]byte{
+				{0, 0, 0, 0, 0, 0, 0, 0, 0, 0, 0xff, 0xff, b[12], b[13], b[14], b[15]}, // ::ffff:a.b.c.d
+				{0, 0, 0, 0, 0, 0, 0, 0, 0, 0, 0, 0, 0, 0, 0, 1},                       // ::1
+				{0xff, 2, 0, 0, 0, 0, 0, 0, 0, 0, 0, 0, 0, 0, 0, 1},                    // ff02::1
+				{0xfe, 0x80, 0, 0, 0, 0, 0, 0, b[8], b[9], b[10], b[11], b[12], b[13], b[14], b[15]},
+				{0, 0, 0, 0, 0, 0, 0, 0, 0, 0, 0xff, 0xff, 10, 0, 0, b[15]},
+			}[r.Intn(5)])
+		case 4:
+			copy(b, [][]byte{{127, 0, 0, 1}, {255, 255, 255, 255}, {0, 0, 0, 0}, {10, 0, 0, 1}, {224, 0, 0, 1}}[r.Intn(5)])
+		default:
+			b[n-1] = 0
+		}
+	default:
+		b[r.Intn(n)] = byte(r.Pick([]int{0, 0x25, 0x2f, 0x40, 0x7f, 0x80, 0xff})) // one special octet somewhere
 	}
 	return b
 }
@@ -49,7 +95,7 @@ func (r *Rng) U16e() uint16 {
 }
 func (r *Rng) U8e() uint8 {
 	if r.Chance(1, 4) {
-		return uint8(r.Pick([]int{0, 0, 1, 2, 0x0f, 0x10, 0x7f, 0x80, 0xfe, 0xff}))
+		return uint8(r.Pick([]int{0, 0, 1, 2, 3, 4, 5, 0x0f, 0x10, 0x7f, 0x80, 0xfe, 0xff})) // (small codes: enumerated types)
 	}
 	return uint8(r.Intn(256))
 }
